@@ -233,7 +233,7 @@ func (e *Env) Conform(c *Corpus, pkgs []string, families string, thorough bool, 
 	obsPath := filepath.Join(c.Dir, fmt.Sprintf("cobs-%d.jsonl", os.Getpid()))
 	defer os.Remove(obsPath)
 	cmd := exec.Command(bin, "-jobs", jobsPath, "-out", obsPath)
-	cmd.Env = append(os.Environ(), "GORACE=halt_on_error=0")
+	cmd.Env = append(os.Environ(), "GORACE=halt_on_error=0 exitcode=0")
 	var stderr bytes.Buffer
 	cmd.Stderr = &stderr
 	if err := cmd.Run(); err != nil {
